@@ -175,6 +175,30 @@ def run(tier, seed, t0, prop=PROP, n_quick=60, n_thorough=600, opts=None, gen=No
 
 
 def replay(path):
+    """re-execute a replay file: compile the recorded program with the recorded options from /repo's current
+    tree, run the same kernel-checked certificate, print the verdict (exit 1 when it still fails)"""
     payload = json.load(open(path))
-    print(json.dumps(payload, indent=1)[:4000])
-    return 0
+    print(json.dumps({k: v for k, v in payload.items() if k not in ("decls", "entities", "mems", "planned_edges", "emitted_wires")},
+                     indent=1)[:3000])
+    if "decls" not in payload or "program" not in payload:
+        return 0
+    decls = [to_tuple(d) for d in payload["decls"]]
+    ents = None
+    if payload.get("entities"):
+        ents = []
+        for e in payload["entities"]:
+            e = dict(e, enable=to_tuple(e["enable"]) if e.get("enable") is not None else None)
+            if e.get("content"):
+                e["content"] = [tuple(c) for c in e["content"]]
+            else:
+                e.pop("content", None)
+            ents.append(e)
+    mems = None
+    if payload.get("mems"):
+        mems = {k: {kk: (to_tuple(vv) if isinstance(vv, list) else vv) for kk, vv in v.items()} for k, v in payload["mems"].items()}
+    it = engine.Item("rp", decls, text=payload["program"], opts=payload.get("options") or {}, entities=ents, mems=mems)
+    engine.check_items(payload.get("property", "RP") + "RP", [it], seed=int(payload.get("generator_seed") or 0))
+    print("REPLAY verdict on the current tree:", it.status)
+    if it.status != "pass":
+        print(json.dumps(it.detail, indent=1, default=str)[:3000])
+    return 1 if it.status == "violation" else 0
